@@ -30,3 +30,26 @@ Definition heap_model (prog : list op) : list (outcome * Z) := run init_state pr
 Definition heap_check (c : list op * list (outcome * Z)) : bool :=
   let '(prog, expected) := c in
   list_eqb (fun a b => outcome_eqb (fst a) (fst b) && (snd a =? snd b)) (heap_model prog) expected.
+
+(* ---------- slice-level programs (Slice.v), run with two growth policies; both must agree with the implementation ---------- *)
+From Anytype Require Import Slice.
+Fixpoint slice_trace (grow : nat -> nat -> nat) (c : cstate) (prog : list cop) : list (outcome * list (list hval)) :=
+  match prog with
+  | [] => []
+  | o :: t => let '(c1, oc) := cstep grow c o in (oc, abs c1) :: slice_trace grow c1 t
+  end.
+Definition slice_obs_eqb (a b : outcome * list (list hval)) : bool :=
+  outcome_eqb (fst a) (fst b) && list_eqb (list_eqb hval_obs_eqb) (snd a) (snd b).
+Definition slice_check (c : list cop * list (outcome * list (list hval))) : bool :=
+  let '(prog, expected) := c in
+  list_eqb slice_obs_eqb (slice_trace exact_fit empty_c prog) expected &&
+  list_eqb slice_obs_eqb (slice_trace doubling empty_c prog) expected.
+
+(* C05 and C09 run both kinds of cases *)
+Definition heap_or_slice_check (c : (list op * list (outcome * Z)) + (list cop * list (outcome * list (list hval)))) : bool :=
+  match c with inl hc => heap_check hc | inr sc => slice_check sc end.
+Definition heap_or_slice_model (c : (list op * list (outcome * Z)) + (list cop * list (outcome * list (list hval)))) :=
+  match c with
+  | inl hc => inl (heap_model (fst hc))
+  | inr sc => inr (slice_trace exact_fit empty_c (fst sc), slice_trace doubling empty_c (fst sc))
+  end.
